@@ -102,14 +102,17 @@ pub fn c13(opts: &Opts) -> Report {
                 return;
             }
             // stderr class: the model predicts "d" only when tracing actually runs; an error message plus debug lines is "d" as well
-            if code != mcode || stdout != mout || (class != mclass && !(mclass == "d" && class != "e" && validate)) {
+            // stderr is compared as a class: the model says "e" (must be empty), "r" (an error message: must be
+            // non-empty) or "d" (tracing ran: must be non-empty); the wording of the lines is never compared
+            let class_ok = match mclass.as_str() { "e" => stderr.is_empty(), _ => !stderr.is_empty() };
+            if code != mcode || stdout != mout || !class_ok {
                 // is it the property or the model?  ask the library in-process
                 let lib = if !tboth && !iboth && tmode != 8 && imode != 8 {
                     let eff_t = if matches!(tmode, 6 | 7) { format!("{tpad_l}{tpl}{tpad_r}").trim().to_string() } else { tpl.clone() };
                     let eff_i = if i_is_arg { input.clone() } else { input.trim_end().to_string() };
                     Some(real::parse_format(&eff_t, &eff_i))
                 } else { None };
-                let kind = match &lib { Some(crate::driver::Out::Ok(s)) if !validate && (code != 0 || stdout != *s) => "property", Some(crate::driver::Out::Err) if !validate && (code != 1 || !stdout.is_empty()) => "property", _ => if class != mclass && code == mcode && stdout == mout { "property" } else { "correspondence" } };
+                let kind = match &lib { Some(crate::driver::Out::Ok(s)) if !validate && (code != 0 || stdout != *s) => "property", Some(crate::driver::Out::Err) if !validate && (code != 1 || !stdout.is_empty()) => "property", _ => if !class_ok && code == mcode && stdout == mout { "property" } else { "correspondence" } };
                 viol(ctx, kind, format!("C13: {desc}: binary gives exit {code}, stderr class {class}, stdout {stdout:?}; model of main.rs gives exit {mcode}, class {mclass}, stdout {mout:?}; library in-process: {}", lib.map(|l| l.show()).unwrap_or_else(|| "n/a".into())),
                      vec![("config", req), ("template", tpl.clone()), ("input", input.clone()), ("observed", format!("exit {code} class {class} stdout {stdout:?}")), ("expected", format!("exit {mcode} class {mclass} stdout {mout:?}")), ("theorem", "C13_ok / C13_err".into())]);
                 return;
